@@ -894,3 +894,68 @@ func modeC20(e *Env) {
 		txJSONCase(e, t, "synthetic")
 	}
 }
+
+
+// jsonStates serialises the transaction with the library's marshalers and reports, for every cell of every row image,
+// how it came out: "absent" (isEmpty), "null" (data is JSON null), "str" (data is a JSON string), "bad" otherwise.
+func jsonStates(t *gobinlog.Transaction) []M {
+	out := []M{}
+	raw, err := json.Marshal(t)
+	if err != nil {
+		return []M{{"err": true, "vals": [][]string{}, "ids": [][]string{}}}
+	}
+	var top map[string]interface{}
+	if json.Unmarshal(raw, &top) != nil {
+		return []M{{"err": true, "vals": [][]string{}, "ids": [][]string{}}}
+	}
+	evs, _ := top["events"].([]interface{})
+	img := func(v interface{}) [][]string {
+		res := [][]string{}
+		rows, _ := v.([]interface{})
+		for _, r := range rows {
+			row := []string{}
+			rm, _ := r.(map[string]interface{})
+			cols, _ := rm["Columns"].([]interface{})
+			for _, c := range cols {
+				cm, _ := c.(map[string]interface{})
+				st := "bad"
+				ie, ok := cm["isEmpty"].(bool)
+				d, has := cm["data"]
+				switch {
+				case !ok || !has:
+				case ie:
+					st = "absent"
+				case d == nil:
+					st = "null"
+				default:
+					if _, isStr := d.(string); isStr {
+						st = "str"
+					}
+				}
+				row = append(row, st)
+			}
+			res = append(res, row)
+		}
+		return res
+	}
+	for _, x := range evs {
+		em, _ := x.(map[string]interface{})
+		out = append(out, M{"err": false, "vals": img(em["rowValues"]), "ids": img(em["rowIdentifies"])})
+	}
+	return out
+}
+
+// modeC20s: C20 end to end - histories from C01's generator streamed through the real Stream(); every delivery is
+// serialised and the rendering of each cell (absent / null / string) is compared with the binlog's rows by the replay.
+func modeC20s(e *Env) {
+	cfgs := allCfgs()
+	for i := 0; i < e.N(24, 300); i++ {
+		gp := quickGP()
+		gp.SimpleCols = i%2 == 0 // CHAR / VARCHAR columns: empty strings are frequent
+		l := GenLog(e.R, cfgs[i%len(cfgs)], gp, nil)
+		RunStreamScenario(e.Rec, &StreamScenario{ID: i + 1, Fam: "c20s", Log: l, Start: l.Boundaries()[0], ServerID: 20,
+			Attempts: []AttemptPlan{defaultAttempt()}, Note: "json-states", JSONStates: true})
+	}
+}
+
+func init() { modes["c20s"] = modeC20s }
